@@ -1,5 +1,10 @@
 package main
 
+import (
+	"os"
+	"strings"
+)
+
 // ---------------------------------------------------------------------------------------------
 // Domain functions available in contracts (abstract tensors, scalar math)
 // ---------------------------------------------------------------------------------------------
@@ -8,20 +13,45 @@ const idxSort = "(Array Int Int)"
 
 func init() {
 	// abstract tensor shape and elements (interface level, section 3.4 of DESIGN.md)
-	registerDomain("rank", []string{"T"}, "Int", `(assert (forall ((t T)) (! (>= (rank t) 0) :pattern ((rank t)))))`)
-	registerDomain("dim", []string{"T", "Int"}, "Int", `(assert (forall ((t T) (i Int)) (! (=> (and (<= 0 i) (< i (rank t))) (>= (dim t i) 1)) :pattern ((dim t i)))))`, "rank")
-	registerDomain("el", []string{"T", idxSort}, "Real", `(assert (forall ((t T) (J (Array Int Int)) (K (Array Int Int))) (! (=> (forall ((k Int)) (=> (and (<= 0 k) (< k (rank t))) (= (select J k) (select K k)))) (= (el t J) (el t K))) :pattern ((el t J) (el t K)))))`, "rank")
-	// row-major view: flat(t, p) is the element at row-major position p
-	registerDomain("flat", []string{"T", "Int"}, "Real", "")
-	registerDomain("sameShape", []string{"T", "T"}, "Bool", `(assert (forall ((a T) (b T)) (! (= (sameShape a b) (and (= (rank a) (rank b)) (forall ((k Int)) (=> (and (<= 0 k) (< k (rank a))) (= (dim a k) (dim b k)))))) :pattern ((sameShape a b)))))
+	if os.Getenv("QV_SHAPE") == "value" {
+		// Shapes are first-class values: shp(t) : Shape, and rank / dim / inb / nelems are functions of the shape. Equality of
+		// shapes is then plain equality (transitivity, symmetry and congruence come for free); extensionality turns
+		// "equal rank and equal sizes" into equality.
+		registerDefined("rank", []string{"T"}, "Int", `(declare-sort Shape 0)
+(declare-fun shp (T) Shape)
+(declare-fun srank (Shape) Int)
+(declare-fun sdim (Shape Int) Int)
+(define-fun rank ((t T)) Int (srank (shp t)))
+(define-fun dim ((t T) (i Int)) Int (sdim (shp t) i))
+(define-fun sameShape ((a T) (b T)) Bool (= (shp a) (shp b)))
+(assert (forall ((s Shape)) (! (>= (srank s) 0) :pattern ((srank s)))))
+(assert (forall ((s Shape) (i Int)) (! (=> (and (<= 0 i) (< i (srank s))) (>= (sdim s i) 1)) :pattern ((sdim s i)))))
+(assert (forall ((s1 Shape) (s2 Shape)) (! (=> (and (= (srank s1) (srank s2)) (forall ((k Int)) (=> (and (<= 0 k) (< k (srank s1))) (= (sdim s1 k) (sdim s2 k))))) (= s1 s2)) :pattern ((srank s1) (srank s2)))))
+(declare-fun inbS (Shape (Array Int Int)) Bool)
+(define-fun inb ((t T) (J (Array Int Int))) Bool (inbS (shp t) J))
+(assert (forall ((s Shape) (J (Array Int Int))) (! (= (inbS s J) (forall ((k Int)) (=> (and (<= 0 k) (< k (srank s))) (and (<= 0 (select J k)) (< (select J k) (sdim s k)))))) :pattern ((inbS s J)))))
+(declare-fun snelems (Shape) Int)
+(define-fun nelems ((t T)) Int (snelems (shp t)))
+(assert (forall ((s Shape)) (! (>= (snelems s) 1) :pattern ((snelems s)))))`)
+		registerDefined("dim", []string{"T", "Int"}, "Int", "", "rank")
+		registerDefined("sameShape", []string{"T", "T"}, "Bool", "", "rank")
+		registerDefined("inb", []string{"T", idxSort}, "Bool", "", "rank")
+		registerDefined("nelems", []string{"T"}, "Int", "", "rank")
+	} else {
+		registerDomain("rank", []string{"T"}, "Int", `(assert (forall ((t T)) (! (>= (rank t) 0) :pattern ((rank t)))))`)
+		registerDomain("dim", []string{"T", "Int"}, "Int", `(assert (forall ((t T) (i Int)) (! (=> (and (<= 0 i) (< i (rank t))) (>= (dim t i) 1)) :pattern ((dim t i)))))`, "rank")
+		registerDomain("sameShape", []string{"T", "T"}, "Bool", `(assert (forall ((a T) (b T)) (! (= (sameShape a b) (and (= (rank a) (rank b)) (forall ((k Int)) (=> (and (<= 0 k) (< k (rank a))) (= (dim a k) (dim b k)))))) :pattern ((sameShape a b)))))
 (assert (forall ((a T) (b T)) (! (= (sameShape a b) (sameShape b a)) :pattern ((sameShape a b)))))
 (assert (forall ((a T)) (! (sameShape a a) :pattern ((rank a)))))
 (assert (forall ((a T) (b T) (c T)) (! (=> (and (sameShape a b) (sameShape b c)) (sameShape a c)) :pattern ((sameShape a b) (sameShape b c)))))`, "rank", "dim")
-	registerDomain("inb", []string{"T", idxSort}, "Bool", `(assert (forall ((t T) (J (Array Int Int))) (! (= (inb t J) (forall ((k Int)) (=> (and (<= 0 k) (< k (rank t))) (and (<= 0 (select J k)) (< (select J k) (dim t k)))))) :pattern ((inb t J)))))
+		registerDomain("inb", []string{"T", idxSort}, "Bool", `(assert (forall ((t T) (J (Array Int Int))) (! (= (inb t J) (forall ((k Int)) (=> (and (<= 0 k) (< k (rank t))) (and (<= 0 (select J k)) (< (select J k) (dim t k)))))) :pattern ((inb t J)))))
 (assert (forall ((a T) (b T) (J (Array Int Int))) (! (=> (and (sameShape a b) (inb a J)) (inb b J)) :pattern ((sameShape a b) (inb a J)))))`, "rank", "dim", "sameShape")
-	// scalar of a rank-0 style reduction (whole-tensor statistics)
-	registerDomain("nelems", []string{"T"}, "Int", `(assert (forall ((t T)) (! (>= (nelems t) 1) :pattern ((nelems t)))))
+		registerDomain("nelems", []string{"T"}, "Int", `(assert (forall ((t T)) (! (>= (nelems t) 1) :pattern ((nelems t)))))
 (assert (forall ((a T) (b T)) (! (=> (sameShape a b) (= (nelems a) (nelems b))) :pattern ((sameShape a b)))))`, "sameShape")
+	}
+	registerDomain("el", []string{"T", idxSort}, "Real", `(assert (forall ((t T) (J (Array Int Int)) (K (Array Int Int))) (! (=> (forall ((k Int)) (=> (and (<= 0 k) (< k (rank t))) (= (select J k) (select K k)))) (= (el t J) (el t K))) :pattern ((el t J) (el t K)))))`, "rank")
+	// row-major view: flat(t, p) is the element at row-major position p
+	registerDomain("flat", []string{"T", "Int"}, "Real", "")
 	registerDomain("tmax", []string{"T"}, "Real", "")
 	registerDomain("tmin", []string{"T"}, "Real", "")
 	registerDomain("tvar", []string{"T"}, "Real", "")
@@ -52,6 +82,10 @@ func init() {
 		registerDomain(f, []string{"T", "Int", idxSort}, "Real", `(assert (forall ((t T) (d Int) (J (Array Int Int)) (K (Array Int Int))) (! (=> (forall ((k Int)) (=> (and (<= 0 k) (< k (- (rank t) 1))) (= (select J k) (select K k)))) (= (`+f+` t d J) (`+f+` t d K))) :pattern ((`+f+` t d J) (`+f+` t d K)))))`, "rank")
 	}
 	registerDomain("tsum", []string{"T"}, "Real", "")
+	// matchCount(p, t): number of positions at which two rank-1 tensors compare equal; it is by definition the sum of the
+	// 0/1 indicator tensor (COUNT, paper lemma: such a sum is an integer between 0 and the number of positions)
+	registerDomain("matchCount", []string{"T", "T"}, "Int", `(assert (forall ((p T) (t T)) (! (and (<= 0 (matchCount p t)) (<= (matchCount p t) (dim p 0))) :pattern ((matchCount p t)))))
+(assert (forall ((p T) (t T) (e T)) (! (=> (and (sameShape e p) (forall ((J (Array Int Int))) (=> (inb e J) (= (el e J) (ite (<= (math_Abs (- (el p J) (el t J))) (/ 1.0 1`+strings.Repeat("0", 240)+`.0)) 1.0 0.0))))) (= (to_int (tsum e)) (matchCount p t))) :pattern ((sameShape e p) (matchCount p t)))))`, "dim", "sameShape", "inb", "el", "tsum", "abs")
 	// fibre(t, d, J): the one-dimensional fibre of t along d at the position selected by J (a ghost tensor);
 	// the fibre statistics are the whole-tensor statistics of the fibre - this is their definition
 	registerDomain("fibre", []string{"T", "Int", idxSort}, "T", `(assert (forall ((t T) (d Int) (J (Array Int Int))) (! (and (= (fsum t d J) (tsum (fibre t d J))) (= (fmax t d J) (tmax (fibre t d J))) (= (fmin t d J) (tmin (fibre t d J))) (= (fvar t d J) (tvar (fibre t d J))) (= (nelems (fibre t d J)) (dim t d))) :pattern ((fibre t d J)))))`, "fsum", "fmax", "fmin", "fvar", "tsum", "tmax", "tmin", "tvar", "nelems", "dim")
@@ -61,10 +95,13 @@ func init() {
 	registerDomain("dsum", []string{"T", "T", idxSort}, "Real", "")
 	registerDomain("msum", []string{"T", "T", idxSort}, "Real", "")
 
+	// upd(J, k, v): J with position k replaced by v
+	registerDomain("upd", []string{idxSort, "Int", "Int"}, idxSort, `(assert (forall ((J (Array Int Int)) (k Int) (v Int)) (! (= (upd J k v) (store J k v)) :pattern ((upd J k v)))))`)
 	// dsumT(A, d, n): sum of dim(A[k], d) over k < n (Concat offsets)
 	registerDomain("dsumT", []string{"(Array Int T)", "Int", "Int"}, "Int", `(assert (forall ((A (Array Int T)) (d Int) (n Int)) (! (=> (<= n 0) (= (dsumT A d n) 0)) :pattern ((dsumT A d n)))))
 (assert (forall ((A (Array Int T)) (d Int) (n Int)) (! (=> (> n 0) (= (dsumT A d n) (+ (dsumT A d (- n 1)) (dim (select A (- n 1)) d)))) :pattern ((dsumT A d n)))))
-(assert (forall ((A (Array Int T)) (d Int) (i Int) (n Int)) (! (=> (and (<= 0 i) (<= i n) (forall ((k Int)) (=> (and (<= i k) (< k n)) (>= (dim (select A k) d) 0)))) (<= (dsumT A d i) (dsumT A d n))) :pattern ((dsumT A d i) (dsumT A d n)))))`, "dim")
+(assert (forall ((A (Array Int T)) (d Int) (i Int) (n Int)) (! (=> (and (<= 0 i) (<= i n) (forall ((k Int)) (=> (and (<= i k) (< k n)) (>= (dim (select A k) d) 0)))) (<= (dsumT A d i) (dsumT A d n))) :pattern ((dsumT A d i) (dsumT A d n)))))
+(assert (forall ((A (Array Int T)) (B (Array Int T)) (d Int) (n Int)) (! (=> (forall ((k Int)) (=> (and (<= 0 k) (< k n)) (= (select A k) (select B k)))) (= (dsumT A d n) (dsumT B d n))) :pattern ((dsumT A d n) (dsumT B d n)))))`, "dim")
 	// ghost: source / target tensor of a back-edge closure
 	registerDomain("srcOf", []string{"Fn"}, "T", "")
 	registerDomain("tgtOf", []string{"Fn"}, "T", "")
@@ -89,6 +126,11 @@ func init() {
 			domainFuncs[name] = df
 		}
 	}
+}
+
+// registerDefined: like registerDomain, but the declaration text defines the symbol itself (define-fun)
+func registerDefined(name string, args []string, res string, text string, deps ...string) {
+	domainFuncs[name] = domainFunc{smt: name, args: args, res: res, decl: text, deps: deps}
 }
 
 func lower(s string) string {
